@@ -47,3 +47,56 @@ claim(
     "equivalent _check_cache would be reported for review.",
     "DESIGN.md section 5 C23",
 )
+
+claim(
+    "C03",
+    "HND+OWN",
+    "static: exception-handler discipline, dispatcher shape, who-may rule on every tolerance-mode read",
+    "Clauses (not the whole behaviour): (a) every construct whose failure must be tolerated — "
+    "Tag.parse via Tag.get_node, every get_node dispatch in Parser._parse/parse_block, every "
+    "node.render* in render_with_context*, the if/unless elsif recovery — is wrapped by a handler "
+    "that catches LiquidError and hands it to Environment.error without re-raising, and no Tag "
+    "subclass overrides get_node; (b) Environment.error and RenderContext.error raise iff STRICT, "
+    "warn iff WARN, nothing else; (c) every other read of the tolerance mode is a strict-only "
+    "raise guard with no else and no other effect, so a run that raises nothing in strict mode "
+    "executes the same statements in lax and warn (identical output, no warnings) — for every "
+    "template and data, which sampling cannot show; (d) every handler that silently swallows a "
+    "LiquidError-family exception is one of 5 reviewed rows; a new one is reported.",
+    "Not decided: that eat_block resynchronises at the right token; non-Liquid exceptions that "
+    "from_string converts (C02/C09). Lexer errors are outside the property.",
+    "DESIGN.md section 5 C03",
+)
+
+claim(
+    "C07",
+    "FLOW+OWN",
+    "static: counted-before-written flow rule on LimitedStringIO.write; who-may rules for buffers and locals",
+    "Clauses: bytes are counted as len(s.encode('utf-8')) of the very string written and the "
+    "size > limit raise is reached before super().write on every path; text buffers are "
+    "constructed only by BoundTemplate._get_buffer and RenderContext.get_buffer, the child "
+    "buffer's limit is output_stream_limit minus the parent's bytes, and every get_buffer call in "
+    "a tag passes the buffer it renders into; render/render_async return the getvalue() of the "
+    "limited buffer; locals are stored only in RenderContext.assign with the limit test after the "
+    "store, get_size_of_locals adds the carry and every copy() passes "
+    "local_namespace_size_carry=self.get_size_of_locals(). These are necessary conditions of "
+    "'never more than L bytes' and 'never held more than M', for all templates and limits.",
+    "Not decided: that sys.getsizeof measures anything meaningful (the property says 'measured "
+    "size'); value-level accounting over whole renders.",
+    "DESIGN.md section 5 C07",
+)
+
+claim(
+    "C08",
+    "OWN+HND",
+    "static: who-may rule over every read of a resource limit + handler discipline for ResourceLimitError",
+    "Full structural decision in strict mode: each of the 16 reads of the five limits is (i) the "
+    "limit side of `measure > limit` in an if that only raises a ResourceLimitError subclass, "
+    "(ii) a None/falsy test that disables such a guard or selects the unlimited buffer, or (iii) "
+    "the limit= of LimitedStringIO; LimitedStringIO.write only raises on size > limit; no handler "
+    "that can catch a ResourceLimitError swallows or converts it. Hence a limited run is the "
+    "unlimited run until a guard raises, and success is monotone in every limit — for every "
+    "template, data and limit value.",
+    "Strict mode only (lax/warn suppress limit errors by design, C03). A limit read in any new "
+    "shape is reported for review.",
+    "DESIGN.md section 5 C08",
+)
